@@ -10,7 +10,7 @@ use proptest::prelude::*;
 use serde::{Deserialize, Serialize};
 use serde_json::json;
 
-pub const N_CTORS: u8 = 38;
+pub const N_CTORS: u8 = 40;
 
 #[derive(Clone, Debug, Serialize, Deserialize)]
 pub struct Case {
@@ -626,6 +626,21 @@ fn build(c: &Case) -> Built {
             rb!(rbv, "size", t.size(), 12);
             let mut x = sized!("ConsoleHeaderTag::new", h::ConsoleHeaderTag, move || h::ConsoleHeaderTag::new(fl, cf), hdr_tag(4, fw, &cw.to_le_bytes()));
             x.id = hdr_id::<h::ConsoleHeaderTag>();
+            x
+        }
+        38 => {
+            // the same tags through their Default impls
+            let t = h::EndHeaderTag::default();
+            rb!(rbv, "typ", t.typ() as u16, 0);
+            rb!(rbv, "flags", t.flags() as u16, 0);
+            rb!(rbv, "size", t.size(), 8);
+            let mut x = sized!("EndHeaderTag::default", h::EndHeaderTag, h::EndHeaderTag::default, hdr_tag(0, 0, &[]));
+            x.id = hdr_id::<h::EndHeaderTag>();
+            x
+        }
+        39 => {
+            let mut x = sized!("EFIBootServicesNotExitedTag::default", m::EFIBootServicesNotExitedTag, m::EFIBootServicesNotExitedTag::default, tag(18, &[]));
+            x.id = mbi_id::<m::EFIBootServicesNotExitedTag>();
             x
         }
         28 => {
